@@ -25,7 +25,7 @@ def obs_invariants():
 # property -> what is run.  gated/free: (families, episodes quick, episodes thorough)
 PLAN = {
     'C01': {'gated': (['basic', 'ctl', 'cancel', 'pool', 'batch', 'barrier', ('tune', 2), 'reject', 'wq'], 88, 1000), 'free': (['basic', 'ctl', 'pool'], 64, 1200), 'model': ['MC_core']},
-    'C02': {'gated': (['ctl', 'pool', 'basic', 'barrier', 'bind2', 'tune', 'wq'], 91, 900), 'free': (['ctl', 'pool'], 64, 1200), 'model': ['MC_core']},
+    'C02': {'gated': (['ctl', 'pool', 'basic', 'barrier', 'bind2', 'tune', 'wq', 'cycles'], 96, 950), 'free': (['ctl', 'pool'], 64, 1200), 'model': ['MC_core']},
     'C03': {'gated': (['basic', 'ctl', 'cancel', 'pool', 'barrier', 'batch', ('tune', 4), 'stop2', 'wq'], 96, 1100), 'free': (['basic', 'ctl', 'pool', 'cancel', 'storm'], 80, 1500), 'model': ['MC_core']},
     'C05': {'gated': (['handle', 'basic', 'cancel', 'batch', 'reject'], 72, 800), 'free': (['handle', 'batch'], 64, 1200), 'model': ['MC_core']},
     'C06': {'gated': (['barrier', 'ctl', 'cancel', 'stop2', 'wq'], 80, 900), 'free': (['barrier', 'ctl'], 64, 1200), 'model': ['MC_core']},
